@@ -86,10 +86,69 @@ def scen():
     return bad
 
 
+def scen_locks():
+    """the synchronized wrappers: the lock given is the lock used, every access to the shared object happens with it
+    held, and it is free afterwards"""
+    import billiard
+    bad = []
+    ctx = billiard.get_context()
+    lock = ctx.RLock()
+    v = SC.Value('i', 5, lock=lock)
+    if v.get_lock() is not lock:
+        bad.append('Value(..., lock=L).get_lock() is not L')
+    seen = []
+
+    class Spy:
+        def __init__(self, real, lk):
+            object.__setattr__(self, '_r', real)
+            object.__setattr__(self, '_l', lk)
+
+        def __getattr__(self, n):
+            seen.append(('get', n, self._l._semlock._is_mine()))
+            return getattr(self._r, n)
+
+        def __setattr__(self, n, x):
+            seen.append(('set', n, self._l._semlock._is_mine()))
+            setattr(self._r, n, x)
+
+        def __getitem__(self, i):
+            seen.append(('getitem', i, self._l._semlock._is_mine()))
+            return self._r[i]
+
+        def __setitem__(self, i, x):
+            seen.append(('setitem', i, self._l._semlock._is_mine()))
+            self._r[i] = x
+
+        def __len__(self):
+            return len(self._r)
+    v._obj = Spy(v._obj, lock)
+    v.value = 7
+    got = v.value
+    a = SC.Array('i', [1, 2, 3], lock=lock)
+    a._obj = Spy(a._obj, lock)
+    a[1] = 20
+    got_a = a[1]
+    s = SC.Array('c', 4, lock=lock)
+    s._obj = Spy(s._obj, lock)
+    s.value = b'ab'
+    got_s = (s.value, s.raw[:2])
+    if (got, got_a, got_s) != (7, 20, (b'ab', b'ab')):
+        bad.append('values read back through the wrappers: %r' % ((got, got_a, got_s),))
+    loose = [e for e in seen if not e[2]]
+    if loose or len(seen) < 7:
+        bad.append('accesses to the shared object and whether the wrapper lock was held: %r' % (seen,))
+    if lock._semlock._is_mine() or lock._semlock._count() != 0:
+        bad.append('the wrapper lock is still held after the accessors returned')
+    w = SC.Value('d', 1.5)
+    if w.get_lock() is None or w.acquire != w.get_lock().acquire or w.release != w.get_lock().release:
+        bad.append('Value without a lock: acquire/release are not bound to get_lock()')
+    return bad
+
+
 def main():
     data = json.load(open(sys.argv[1]))
     print('replay of %s / %s' % (data['function'], data['obligation']))
-    bad = scen()
+    bad = scen() + scen_locks()
     for b in bad[:8]:
         print('  violation on real code: ' + b)
     print('REPRODUCED on real code' if bad else 'not reproduced')
